@@ -27,7 +27,11 @@ pub const V4_BLOCKS: &[([u8; 4], u32, Egress, &str)] = &[
     ([127, 0, 0, 0], 8, Egress::MustRefuse, "loopback"),
     ([169, 254, 0, 0], 16, Egress::MustRefuse, "link-local"),
     ([172, 16, 0, 0], 12, Egress::MustRefuse, "private"),
-    ([192, 0, 0, 0], 24, Egress::Either, "ietf-protocol-assignments"),
+    // the two globally reachable anycast addresses inside 192.0.0.0/24 (IANA registry; the
+    // endpoint's own documentation of is_global_ipv4 names them)
+    ([192, 0, 0, 9], 32, Egress::MustAllow, "pcp-anycast"),
+    ([192, 0, 0, 10], 32, Egress::MustAllow, "turn-anycast"),
+    ([192, 0, 0, 0], 24, Egress::MustRefuse, "ietf-protocol-assignments(reserved)"),
     ([192, 0, 2, 0], 24, Egress::MustRefuse, "documentation"),
     ([192, 88, 99, 0], 24, Egress::Either, "6to4-relay-deprecated"),
     ([192, 168, 0, 0], 16, Egress::MustRefuse, "private"),
